@@ -94,7 +94,7 @@ Consume ==
                 a == ActOf(line.act)
                 r == Apply(s, a)
                 v == Verdict(line, r)
-                inv == InvFailures(StateOf(line.post, lastRot))
+                inv == InvFailures(StateOf(line.post, lastRot)) \ InvFailures(s)   \* newly broken only
                 accepted == v = "" \/ (r.free /\ v = "outcome")
             IN /\ IF accepted /\ inv = {} THEN TRUE ELSE Report(line, r, v, inv)
                /\ bad' = IF accepted /\ inv = {} THEN bad ELSE bad + 1
